@@ -98,23 +98,29 @@ def run(tier):
             jobs.append((h, f, kind))
     # ---- "storms": the same action repeated N times with N around the capacities of narrow counters (2^8, 2^9, 2^16) between an
     # assemble call and the final one. What matters is a COUNT, which no bounded alphabet reaches.
-    units = {"movtoggle": (["opt 0 mov 1", "opt 0 mov 2"], True), "swaptoggle": (["opt 0 swap 0", "opt 0 swap 1"], True), "nobasetoggle": (["opt 0 nobase 0", "opt 0 nobase 1"], True),
+    units = {"movtoggle1": (["opt 0 mov 1", "opt 0 mov 2", "opt 0 mov 0"], True), "movtoggle": (["opt 0 mov 1", "opt 0 mov 2"], True), "swaptoggle": (["opt 0 swap 0", "opt 0 swap 1"], True), "nobasetoggle": (["opt 0 nobase 0", "opt 0 nobase 1"], True),
              "alltoggle": (["opt 0 all 0", "opt 0 all 1"], True), "chunktoggle": (["chunk 0 8", "chunk 0 0"], True), "setoffs": (["setoff 0 5", "setoff 0 9"], False),
              "smallasm": (["setoff 0 0", "asm 0 %s" % common.hx("nop")], False), "smallcnt": (["setoff 0 0", "cnt 0 4 %s" % common.hx("mov rax, rbx")], False),
              "asmcnt": (["setoff 0 0", "asm 0 %s" % common.hx("mov rax, 0x7fffffff"), "setoff 0 3", "cnt 0 4 %s" % common.hx("lea r15, [rax+rsp]")], False),
              "others": (["new 1 ext 64 H 0xcc", "del 1"], False), "failing": (["asm 0 %s" % common.hx("bogus")], False)}
     nstorm = 0
     for uname, (ucmds, ucfg) in sorted(units.items()):
-        ns = [254, 256, 258, 510, 512, 514] + ([65534, 65536, 65538] if uname in ("movtoggle", "alltoggle") else []) + ([65536] if uname in ("failing", "smallasm", "others", "smallcnt") else []) + ([1022, 1024, 4096] if full else [])
+        # N = number of REPETITIONS of the unit between the two assemblies of the same text: around 2^8, 2^9 and 2^16 (a per-instance
+        # counter of calls / changes that wraps makes the N-th repetition special for N = 2^k - 1, 2^k or 2^k + 1)
+        ns = [127, 128, 254, 255, 256, 257, 258, 511, 512, 513] + ([65534, 65535, 65536, 65537] if uname in ("movtoggle", "alltoggle", "failing", "smallasm", "smallcnt", "others", "setoffs") else []) + ([1023, 1024, 4096, 131071] if full else [])
         for N in ns:
             sym = "storm:%s*%d" % (uname, N)
-            table[sym] = (ucmds * (N // len(ucmds)), ucfg)
+            table[sym] = (ucmds * N, ucfg)
             for pre in (("mov0", "asm"), ("sib0", "nobase1", "asm"), ("all1", "cnt8")):
                 if N > 60000 and pre != ("mov0", "asm"):
                     continue
                 for f in ((FINALS[0], FINALS[6]) if N < 60000 else (FINALS[0],)):
                     jobs.append((pre + (sym,), f, "ext 4096 H 0xcc" if nstorm % 2 else "int"))
                     nstorm += 1
+                    if not ucfg:
+                        # the options CHANGE after the storm: something remembered from before it (a parse, a decision) is then stale
+                        jobs.append((pre + (sym, "mov1", "sib0"), f, "ext 4096 H 0xcc" if nstorm % 2 else "int"))
+                        nstorm += 1
     used = common.run_cases(binary, [script(h, f, table, False, kind) for (h, f, kind) in jobs], tag="c15u")
     fresh_keys = {}
     for (h, f, kind) in jobs:
